@@ -1,6 +1,6 @@
 (* C12_proofs.v — proofs about the remapping model (coq/Model/C12.v). *)
 From Coq Require Import ZArith List Bool Lia QArith Lqa Permutation Sorted ZifyBool.
-From Verif Require Import Base C11 C11_proofs C12.
+From Verif Require Import Base C11 C11_proofs C12 C12_flags.
 Import ListNotations.
 Open Scope Z_scope.
 
@@ -409,6 +409,30 @@ Qed.
 Example c12_single_destination_nonvacuous :
   c12_nn 3 1 4 {| cd_node := [[5; 1; 7]]; cd_face := []; cd_edge := [] |} [[1#1; 2#1; 3#1]%Q] = Some [[2#1]%Q].
 Proof. vm_compute. reflexivity. Qed.
+
+(* ------------------------------------------------------------------------------------------ *)
+(* the source tree follows the grid's current coordinates                                     *)
+
+Lemma c12_fresh_tree : forall ops cur cache p,
+  In p (c12_run_ops true cur cache ops) -> fst p = snd p.
+Proof.
+  induction ops as [|o ops IH]; intros cur cache p H; [destruct H|].
+  destruct o; cbn [c12_run_ops] in H.
+  - eapply IH; eauto.
+  - destruct H as [<-|H]; [|eapply IH; eauto].
+    unfold c12_tree_version. destruct cache; reflexivity.
+Qed.
+
+Lemma c12_cached_tree_refuted : exists ops p, In p (c12_run_ops false 0 None ops) /\ fst p <> snd p.
+Proof. exists [C12Remap; C12Mutate; C12Remap], (0%nat, 1%nat). split; [right; left; reflexivity | discriminate]. Qed.
+
+Lemma c12_source_tree_current_source :
+  if c12_remap_reconstruct
+  then forall ops cur cache p, In p (c12_run_ops c12_remap_reconstruct cur cache ops) -> fst p = snd p
+  else exists ops p, In p (c12_run_ops c12_remap_reconstruct 0 None ops) /\ fst p <> snd p.
+Proof.
+  destruct c12_remap_reconstruct eqn:E; [exact c12_fresh_tree | exact c12_cached_tree_refuted].
+Qed.
 
 (* ------------------------------------------------------------------------------------------ *)
 (* dimensions                                                                                 *)
